@@ -583,3 +583,16 @@ def check(prog: Program, rep):
     # node mode: the factor-0 rule has to act on the *translated* (expanded) elements (C10.R3)
     from rules.c10 import scale_zero_ignored as _szi
     _szi(prog, RuleProxy(rep, "C11.R6"), "C10.R3")
+    # the expansion copies the caller's attribute dictionaries as data, not as keyword arguments
+    _ne = prog.own_method("NodeExpandedDiGraph", "__init__")
+    _unp = [c for c in calls_in(_ne.node) if isinstance(c.func, ast.Attribute) and c.func.attr in ("add_node", "add_edge", "add_nodes_from", "add_edges_from") and
+            any(k.arg is None and ("G.nodes[" in norm(k.value) or "G.edges[" in norm(k.value) or norm(k.value) in ("data", "attrs")) for k in c.keywords)]
+    key = "NodeExpandedDiGraph.__init__:attributes-as-data"
+    if _unp:
+        rep.violation("C11.R6", key, f"`{norm(_unp[0])[:80]}` unpacks the caller's attribute dictionary into keyword arguments: an attribute whose name is not a string "
+                      "(nx.set_node_attributes(G, {...}, name=0)) or equals a parameter name of add_node / add_edge (u_of_edge, v_of_edge, node_for_adding) raises TypeError - the "
+                      "node-weighted model of a valid networkx graph cannot be built, while the explicitly expanded instance solves", _ne.loc(_unp[0]), self_contained=True)
+    else:
+        rep.ok("C11.R6", key, "attributes are copied with update()", _ne.loc())
+    from rules.c04 import repetition_caps as _rc11
+    _rc11(prog, RuleProxy(rep, "C11.R6"), "C04.R5")
